@@ -23,8 +23,8 @@ RULE = ("two real dilated wormholes; w.dilate() on each side at a random point (
         "decision traces.")
 ASSUMPTIONS = ["Noise stand-in", "convergence bound: 600 virtual seconds after the last fault (ping interval 5 s)",
                "mailbox control messages are FIFO per sender (plain real server)"]
-FLOORS = {"quick": {"probes": 100000, "connected_cases": 250, "faults": 300, "reconverged": 200, "bulk_cases": 30, "bystander_pairs": 80, "one_sided_relay_behind_nat_reconverged": 12},
-          "thorough": {"probes": 3000000, "connected_cases": 8000, "faults": 7000, "reconverged": 7000, "bulk_cases": 900, "bystander_pairs": 2000, "one_sided_relay_behind_nat_reconverged": 400}}
+FLOORS = {"quick": {"pairs_with_sides_that_are_not_stock_hex": 15, "probes": 100000, "connected_cases": 250, "faults": 300, "reconverged": 200, "bulk_cases": 30, "bystander_pairs": 80, "one_sided_relay_behind_nat_reconverged": 12},
+          "thorough": {"pairs_with_sides_that_are_not_stock_hex": 500, "probes": 3000000, "connected_cases": 8000, "faults": 7000, "reconverged": 7000, "bulk_cases": 900, "bystander_pairs": 2000, "one_sided_relay_behind_nat_reconverged": 400}}
 
 
 def cases(tier, seed, prep=None):
@@ -42,10 +42,22 @@ def cases(tier, seed, prep=None):
     # generation depends on the peer's relay hint being used again
     out += [{"seed": seed * 1000003 + 1180000 + i, "relay": True, "relay_sides": [(True, False), (False, True)][i % 2], "nat_both": True,
              "nfaults": [1, 2, 3, 1][i % 4]} for i in range(32 if tier == "quick" else 900)]
+    # peers whose dilation side is not the stock lower-case hex (another implementation): sides are opaque strings, the
+    # higher one leads, and both ends must come to the same answer
+    odd = [("a100000000000000", "AB00000000000000"), ("AB00000000000000", "a100000000000000"), ("Zebra", "apple"), ("apple", "Zebra"),
+           ("0a0a0a0a0a0a0a0a", "0A0A0A0A0A0A0A0B"), ("\u00df-side", "SS-side"), ("side", "Side "), ("b", "B0")]
+    out += [{"seed": seed * 1000003 + 1190000 + i, "relay": i % 4 == 1, "nfaults": [0, 1, 2][i % 3], "sides": list(odd[i % len(odd)])} for i in range(24 if tier == "quick" else 800)]
     return out
 
 
+_ORIG_MAKE_SIDE = []
+
+
 def run_case(spec):
+    from wormhole._dilation import manager as _m0
+    if not _ORIG_MAKE_SIDE:
+        _ORIG_MAKE_SIDE.append(_m0.make_side)
+    _m0.make_side = _ORIG_MAKE_SIDE[0]          # (a substitution left over from an earlier case of this worker, if any)
     world = World(spec["seed"], relay=spec["relay"])
     rng = world.work_rng
     r = world.reactor
@@ -53,6 +65,18 @@ def run_case(spec):
     bad_hosts = [h for h in world.local_addresses[2:] if rng.random() < 0.5]
     for h in bad_hosts:
         (r.refuse if rng.random() < 0.5 else r.unroutable).add(h)
+    if spec.get("sides"):
+        # the first two dilation sides made in this case (A's, then B's: the driver's listen() dilates in that order) are the
+        # given ones; the substitution undoes itself after the second
+        from wormhole._dilation import manager as _m
+        orig_make_side, todo = _m.make_side, list(spec["sides"])
+
+        def make_side():
+            s_ = todo.pop(0)
+            if not todo:
+                _m.make_side = orig_make_side
+            return s_
+        _m.make_side = make_side
     dp = DilatedPair(world, relay=spec.get("relay_sides", spec["relay"]), ping_interval=5.0, dilate_now=False,
                      no_listen=(rng.random() < 0.15, False) if not spec.get("nat_both") else (True, True))
     drv = ScriptDriver(dp, rng, names=("p0",), max_opens=1, max_writes=6, sizes=(1, 100), late_listen=0.0, close_prob=0.0)
@@ -258,7 +282,7 @@ def run_case(spec):
     world.finish()
     nontrivial = trace_digest(sch) if (probes["connected_once"] and (faults["done"] or spec["nfaults"] == 0)) else None
     return {"violations": viol, "nontrivial": nontrivial,
-            "counters": {"probes": probes["n"], "connected_cases": int(probes["connected_once"]), "faults": faults["done"],
+            "counters": {"probes": probes["n"], "pairs_with_sides_that_are_not_stock_hex": int(bool(spec.get("sides")) and bool(probes["connected_once"])), "connected_cases": int(probes["connected_once"]), "faults": faults["done"],
                          "faults_skipped": faults["skipped"], "reconverged": int(converged and same_link),
                          "l2_links": len(dp.l2_links()), "relay_cases": int(spec["relay"]), "one_sided_relay_behind_nat_reconverged": int(bool(spec.get("nat_both")) and faults["done"] > 0 and converged and same_link), "bulk_cases": int(bulk["started"]), "bystander_pairs": int(by is not None), "bytewise_cases": int(bool(spec.get("bytewise"))),
                          "bulk_bytes": bulk["obj"].written if bulk["obj"] else 0, "far_end_gone_at_probe": probes["far_end_gone"],
